@@ -99,7 +99,7 @@ pub trait DepOrder: Sized {
 //@ end
 }
 //@ item layout21utils/src/dep_order.rs :: struct DepOrderer
-//@   sub R4 /\n    (stack|seen|pending|p):/ => \n    pub \1:
+//@   pubfields
 //@ end
 impl<P: DepOrder> DepOrderer<P> {
 //@ fn layout21utils/src/dep_order.rs :: impl<P: DepOrder> DepOrderer<P> :: fn order
